@@ -186,13 +186,15 @@ def run(tier="quick", seed=0, replay=None):
         return 1
     core.lean_stage(chk, "C19")
     from harness import cover
+    from harness import fingerprint
+    fingerprint.direct(chk, ['ixai/storage/tree_storage.py', 'ixai/imputer/tree_imputer.py'])
     _cv = cover.Cover(['ixai/storage/tree_storage.py', 'ixai/imputer/tree_imputer.py'])
     _cv.__enter__()
     quick = tier == "quick"
     reqs, impls = [], []
-    for i in range(8 if quick else 40):
+    for i in range(chk.count(8, 40)):
         md, gp, L = chk.rng.randint(1, 4), chk.rng.choice([5, 10, 25]), chk.rng.randint(1, 4)
-        n = 120 if quick else 1500
+        n = chk.count(120, 1500)
         before = chk.stats.get("leaf_set_changes", 0)
         desc, fail, req, impl = tree_case(chk, md, gp, L, n, use_storage=(i % 3 != 2))
         changed = chk.stats.get("leaf_set_changes", 0) - before
